@@ -81,10 +81,17 @@ def simulate(lines, at_hook=None, want=('report',), input_name='in.txt', raw_tex
         except Exception as e:  # noqa
             obs['json_exc'] = repr(e)
     if 'result' in want:
-        obs['result'] = result.result
+        import copy
+        obs['result'] = copy.deepcopy(result.result)       # as parsed, before any export touches the object
     if 'csv' in want:
         try:
             obs['csv'] = result.as_csv()
         except Exception as e:  # noqa
             obs['csv_exc'] = repr(e)
+        # an export is a read: the same object exports the same text again and still holds what it held
+        try:
+            obs['csv_again'] = result.as_csv()
+        except Exception as e:  # noqa
+            obs['csv_again_exc'] = repr(e)
+        obs['result_after_csv_same'] = (result.result == obs['result']) if 'result' in obs else None
     return obs
